@@ -67,6 +67,8 @@ let op_of (x : sx) : Model.op =
   | L [A "synth"; d] -> Model.OSynth (nn d)
   | L [A "setcell"; c; v] -> Model.OSetCell (nn c, nn v)
   | L [A "setpanic"; c; v] -> Model.OSetPanic (nn c, nn v)
+  | L [A "evfault"; A "off"] -> Model.OSetEvFault None
+  | L [A "evfault"; n] -> Model.OSetEvFault (Some (nn n))
   | L [A "get"; fam; k] -> Model.OGet (nn fam, nn k)
   | L [A "setlru"; fam; n] -> Model.OSetLru (nn fam, nn n)
   | L [A "evict"] -> Model.OEvict
